@@ -228,11 +228,11 @@ PROPS['C10'] = {
 }
 PROPS['C11'] = {
     'e2': True, 'engine': 'gram-smt', 'technique': E2_TECH + '; plus E1 (Kani/CBMC) spelling-table harnesses',
-    'explanation': '(E2) for every assembler line shape: no instantiation is accepted downstream with a different operand order, a missing operand, or a constant that differs from the '
+    'explanation': '(E1) the assembler\'s u_byte_num / u_word_num leaves on symbolic decimal, 0x and 0b token text (value when it fits, diagnostic otherwise) and the interpreter\'s decimal leaves (the numeric model E2 relies on); (E2) for every assembler line shape: no instantiation is accepted downstream with a different operand order, a missing operand, or a constant that differs from the '
                    'source constant modulo the source width (following the cast chain of the downstream numeric leaf); (E1) every source spelling of every mnemonic / register / keyword '
                    'table (both cases, all synonyms) emits the lower-case spelling or its Intel synonym',
     'bounds': 'one source line at a time; constants over their whole typed range; spelling tables exhaustively',
-    'outside': 'white space, line breaks and ;-comments (LALRPOP lexer / regex inside CMDDriver::run); the text -> value function of the assembler\'s own numeric leaves for hex/binary literals',
+    'outside': 'white space, line breaks and ;-comments (LALRPOP lexer / regex inside CMDDriver::run); raw_addr / negative-decimal / OFFSET leaves of the assembler are covered by E2 observation only',
     'backends': [(r'.*', ['sat', 'z3'])],
     'assumptions': ['synonym table transcribed from the Intel manual (lib/gen.py SYNONYMS)', 'as C10'],
     'level_text': 'operand-role and constant preservation across the text interface decided by SMT for all constants; case/synonym independence by exhaustive symbolic execution of the real table actions',
